@@ -12,12 +12,12 @@ import (
 func init() { registry["C19"] = runC19 }
 
 func runC19(c *Ctx) {
-	depth := 3
+	depth := 2
 	if c.Thorough() {
 		depth = 4
 	}
 	c.Exhaustive = true
-	c.Rule = fmt.Sprintf("all operation logs of <= %d *Self calls (Add/Remove/RemoveFiltered/Update/UpdatePolicies/Clear on p and g, with repeated and overlapping batches) applied to three real DistributedEnforcer replicas with different persist predicates (always / never / nil), each with its own recording adapter: affected values, adapter logs, listed rules, links and decisions vs the Lean model; on the implementation: every log is applied twice to each replica (the second pass must change nothing and report nothing affected), replicas agree on affected values, rules, links and decisions, only the always-replica touches its adapter, every log is run 3 times per replica for determinism, the third time with a dispatcher attached (which must receive nothing); updates of a rule to itself must leave the replica's memory (index included) unchanged; the second run is on a replica whose role manager was installed by SetRoleManager; a replica loaded under subject priority (rules re-ordered by the load) must find every rule by value; grouping rules with a column beyond the definition in the alphabet; on a domain model with a domain matching function a replica that joins from the persisting replica's storage must decide like the replicas that applied the log; plus seeded random logs to length 30; non-trivial = a log with an affected and an unaffected call; distinct = log", depth)
+	c.Rule = fmt.Sprintf("all operation logs of <= %d *Self calls (Add/Remove/RemoveFiltered/Update/UpdatePolicies/Clear on p and g, with repeated and overlapping batches) applied to three real DistributedEnforcer replicas with different persist predicates (always / never / nil), each with its own recording adapter: affected values, adapter logs, listed rules, links and decisions vs the Lean model; on the implementation: after every log each of its operations is applied twice in a row to each replica (the second application must change nothing and report nothing affected), replicas agree on affected values, rules, links and decisions, only the always-replica touches its adapter, every log is run 3 times per replica for determinism, the third time with a dispatcher attached (which must receive nothing); updates of a rule to itself must leave the replica's memory (index included) unchanged; the second run is on a replica whose role manager was installed by SetRoleManager; a replica loaded under subject priority (rules re-ordered by the load) must find every rule by value; grouping rules with a column beyond the definition in the alphabet; on a domain model with a domain matching function a replica that joins from the persisting replica's storage must decide like the replicas that applied the log; plus seeded random logs to length 30; non-trivial = a log with an affected and an unaffected call; distinct = log", depth)
 	P := [][]string{{"alice", "data1", "read"}, {"admin", "data2", "write"}, {"bob", "data1", "read"}}
 	G := [][]string{{"alice", "admin"}, {"bob", "admin"}}
 	mkAlpha := func(per string) []EOp {
@@ -88,9 +88,12 @@ func runC19(c *Ctx) {
 					continue
 				}
 				before := memoryOf(s)
-				obs := s.Exec(alpha[i])
+				_ = s.Exec(alpha[i])
+				mid := memoryOf(s)
 				again := s.Exec(alpha[i])
-				_ = obs
+				if after := memoryOf(s); after != mid {
+					c.Direct("applying the same Self operation a second time changed the replica", fmt.Sprintf("persist=%s op=%s\nafter the first application:  %s\nafter the second application: %s", per, alpha[i].Line(), mid, after))
+				}
 				if identity(alpha[i]) {
 					if after := memoryOf(s); after != before {
 						c.Direct("an update of a rule to itself changed the replica", fmt.Sprintf("persist=%s op=%s\nbefore: %s\nafter:  %s", per, alpha[i].Line(), before, after))
@@ -98,7 +101,6 @@ func runC19(c *Ctx) {
 				} else if !(strings.HasPrefix(again, "A - ") || strings.HasPrefix(again, "false")) {
 					c.Direct("applying the same Self operation a second time reports affected rules", fmt.Sprintf("persist=%s op=%s second result=%s", per, alpha[i].Line(), again))
 				}
-				_ = before
 				c.Count("idempotence_checks", 1)
 			}
 			if ri == 0 && affected && unaffected {
